@@ -196,7 +196,7 @@ def frame_for (src, dst, variant, size, uid):
                  F.tcp(1000 + uid % 3, 80, payload, src=0x0a000001 + uid % 2, dst=0x0a000002)))
   if variant == "icmp":
     return F.eth(dst, src, 0x0800, F.ipv4(0x0a000001, 0x0a000002 + uid % 2, 1,
-                 F.icmp(8, 0, payload=payload)))
+                 F.icmp(*[(8, 0), (13, 0), (8, 0), (3, 1), (0, 0)][uid % 5], payload=payload)))
   if variant == "frag":
     # a later fragment of a UDP datagram (no transport header in it)
     return F.eth(dst, src, 0x0800, F.ipv4(0x0a000001, 0x0a000002, 17, payload[:40],
@@ -513,7 +513,10 @@ def gen_moves (rng, count):
     a, b, c = rng.sample(range(4), 3)
     sw_ = 0
     pa, pb, pa2 = rng.sample([1, 2, 3, 4], 3)
-    variant = rng.choice(["plain", "plain", "ip", "tcp", "arp"])
+    # (icmp, tcp and vlan_ip frames of one pair of stations are not all one
+    #  conversation: type and code, addresses and ports change from frame to
+    #  frame, and a flow cached for one of them is none for the next)
+    variant = rng.choice(["plain", "plain", "ip", "tcp", "arp", "icmp", "icmp", "vlan_ip"])
     size = rng.choice([50, 100])
     ops = [[b, sw_, pb, rng.choice(["bcast", a]), variant, size, 0],
            [a, sw_, pa, b, variant, size, 0]]
